@@ -8,6 +8,74 @@ use rand::Rng;
 use serde_json::json;
 use whirlpool::math::{sqrt_price_from_tick_index, tick_index_from_sqrt_price};
 
+/// The supported tick set (state/tick.rs): which tick indexes the program treats as in bounds, usable for a spacing,
+/// the full range of a spacing, and valid tick-array start indexes - against their definitions, on every spacing of
+/// interest around both ends of the range, around zero and on a random sample. Every usable tick must convert to a
+/// price inside the published bounds.
+fn supported_ticks(seed: u64, acc: &mut Acc) {
+    use whirlpool::state::Tick;
+    let mut r = rnd::rng(seed ^ 0x71c4);
+    let mut spacings: Vec<u16> = vec![1, 2, 3, 4, 5, 8, 16, 32, 64, 96, 128, 256, 1000, 5041, 32767, 32768, 32896, 50_000, u16::MAX];
+    for _ in 0..20 {
+        spacings.push(r.gen_range(1..=u16::MAX));
+    }
+    for s in spacings {
+        let si = s as i64;
+        let tia = 88 * si;
+        let mut ts: Vec<i64> = vec![];
+        for base in [MIN_TICK_INDEX as i64, MAX_TICK_INDEX as i64, 0] {
+            for k in -3..=3 {
+                for d in -2..=2 {
+                    ts.push(base + k * si + d);
+                    ts.push((base.div_euclid(si) + k) * si + d);
+                    ts.push((base.div_euclid(tia) + k) * tia + d);
+                    ts.push((base.div_euclid(88) + k) * 88 + d);
+                }
+            }
+        }
+        for _ in 0..400 {
+            let t = r.gen_range(-450_000i64..450_000);
+            ts.push(t);
+            ts.push(t.div_euclid(si) * si);
+            ts.push(t.div_euclid(tia) * tia);
+            ts.push(t.div_euclid(88) * 88 * if r.gen() { 1 } else { si.min(64) });
+        }
+        let upper_full = (MAX_TICK_INDEX as i64).div_euclid(si) * si;
+        let got_full = Tick::full_range_indexes(s);
+        acc.evaluations += 1;
+        if (got_full.0 as i64, got_full.1 as i64) != (-upper_full, upper_full) {
+            acc.violation("tick:full_range_indexes".to_string(), format!("full_range_indexes({s}) = {:?}, the aligned ticks inside the range are ({}, {upper_full})", got_full, -upper_full), json!({"spacing": s}));
+        }
+        for t in ts {
+            if t < i32::MIN as i64 / 2 || t > i32::MAX as i64 / 2 {
+                continue;
+            }
+            let ti = t as i32;
+            let inb = t >= MIN_TICK_INDEX as i64 && t <= MAX_TICK_INDEX as i64;
+            acc.evaluations += 3;
+            acc.count("supported_tick_cases");
+            if Tick::check_is_out_of_bounds(ti) == inb {
+                acc.violation("tick:out_of_bounds".to_string(), format!("check_is_out_of_bounds({ti}) = {}", !inb), json!({"tick": ti}));
+            }
+            let usable = inb && t.rem_euclid(si) == 0;
+            if Tick::check_is_usable_tick(ti, s) != usable {
+                acc.violation("tick:usable_tick".to_string(), format!("check_is_usable_tick({ti}, spacing {s}) = {} but the tick is {}in [{MIN_TICK_INDEX}, {MAX_TICK_INDEX}] and {}a multiple of the spacing", !usable, if inb { "" } else { "not " }, if t.rem_euclid(si) == 0 { "" } else { "not " }), json!({"tick": ti, "spacing": s}));
+            }
+            if usable {
+                let p = sqrt_price_from_tick_index(ti);
+                if !(MIN_SQRT_PRICE_X64..=MAX_SQRT_PRICE_X64).contains(&p) {
+                    acc.violation("tick:usable_tick_outside_price_bounds".to_string(), format!("usable tick {ti} converts to {p}"), json!({"tick": ti}));
+                }
+            }
+            // a tick array starts at a multiple of 88 x spacing; the only start below the range is the array that contains MIN
+            let start_ok = t.rem_euclid(tia) == 0 && t <= MAX_TICK_INDEX as i64 && t + tia > MIN_TICK_INDEX as i64;
+            if Tick::check_is_valid_start_tick(ti, s) != start_ok {
+                acc.violation("tick:valid_start_tick".to_string(), format!("check_is_valid_start_tick({ti}, spacing {s}) = {} (multiple of {tia}: {}; array reaches into the range: {})", !start_ok, t.rem_euclid(tia) == 0, t <= MAX_TICK_INDEX as i64 && t + tia > MIN_TICK_INDEX as i64), json!({"tick": ti, "spacing": s}));
+            }
+        }
+    }
+}
+
 pub fn run(tier: Tier, seed: u64) -> i32 {
     let mut rep = Report::new("C09", tier, seed);
     rep.rule = "(plus ~17 000 structured inverse inputs: 2^k, 2^k +- 1..3, runs of ones 2^k - 2^j, 2^k + 2^j and one-bit walks for k = 32..96) forward: ALL 887273 ticks enumerated (strict monotonicity, endpoints, each step within 2^-32 of sqrt(1.0001) by exact integer inequality); inverse: every tick boundary p_t, p_t-1, p_t+1 enumerated plus a random interior sample (log-uniform and uniform-inside-random-tick), expected tick by binary search in the forward table. distinct = (check kind, tick/1024 bucket, position-in-tick class)".into();
@@ -148,7 +216,10 @@ pub fn run(tier: Tier, seed: u64) -> i32 {
         }
         acc
     });
+    let mut acc = acc;
+    supported_ticks(seed, &mut acc);
     rep.acc = acc;
+    rep.floor("supported_tick_cases", 40_000);
     rep.floor("forward_steps", 887_272);
     rep.floor("inverse_boundary", 2_000_000);
     rep.floor("inverse_interior", 1_000_000);
